@@ -19,14 +19,14 @@ T == (1..12) \cup {99, 100}
 M == 200
 VARIABLES l, owner, depth, q, sl, rsn, stale, cont, rec, lasthead
 vars == <<l, owner, depth, q, sl, rsn, stale, cont, rec, lasthead>>
-Init == /\ l = 1 /\ owner = 0 /\ depth = 0 /\ q = <<>> /\ sl = [t \in T |-> "run"] /\ rsn = [t \in T |-> 0]
+Init == /\ l = 1 /\ owner = 0 /\ depth = [t \in T |-> 0] /\ q = <<>> /\ sl = [t \in T |-> "run"] /\ rsn = [t \in T |-> 0]
         /\ stale = [t \in T |-> {}] /\ cont = FALSE /\ rec = FALSE /\ lasthead = 0 /\ TLCSet(1, 0)
 Ev(e) == l <= Len(Tr) /\ Tr[l].e = e /\ l' = l + 1
 R == Tr[l]
 Known(t) == t \in T
 Remove(seq, x) == SelectSeq(seq, LAMBDA y : y # x)
 InQ(x) == \E i \in 1..Len(q) : q[i] = x
-Reset == /\ Ev("Reset") /\ owner' = 0 /\ depth' = 0 /\ q' = <<>> /\ sl' = [t \in T |-> "run"] /\ rsn' = [t \in T |-> 0]
+Reset == /\ Ev("Reset") /\ owner' = 0 /\ depth' = [t \in T |-> 0] /\ q' = <<>> /\ sl' = [t \in T |-> "run"] /\ rsn' = [t \in T |-> 0]
          /\ stale' = [t \in T |-> {}] /\ cont' = (R.cont = 1) /\ rec' = R.rec /\ lasthead' = 0
 MtxTry == /\ Ev("hMtxTry") /\ R.m = M /\ Known(R.t)
           /\ IF R.ok = 1 THEN owner = 0 /\ owner' = R.t ELSE owner # 0 /\ UNCHANGED owner
@@ -67,10 +67,12 @@ Wake == /\ Ev("hWake")
         /\ UNCHANGED <<owner, depth, q, rsn, cont, rec, lasthead>>
 \* API level
 Resp == /\ Ev("Resp")
-        /\ CASE R.op = "lock" /\ R.r = 0 -> /\ owner = R.t /\ ~InQ(R.t) /\ depth' = IF rec THEN depth + 1 ELSE 1
+        \* depth[t] = recursion depth of thread t as the API calls tell it (per thread: the Resp events of two threads may be
+        \* logged in either order around a hand-over, the hook events inside the brackets are what orders ownership)
+        /\ CASE R.op = "lock" /\ R.r = 0 -> /\ owner = R.t /\ ~InQ(R.t) /\ depth' = [depth EXCEPT ![R.t] = IF rec THEN @ + 1 ELSE 1]
              [] R.op = "lock" /\ R.r # 0 -> /\ owner # R.t /\ ~InQ(R.t) /\ UNCHANGED depth
-             [] R.op = "try_lock" /\ R.r = 0 /\ "skip" \notin DOMAIN R -> owner = R.t /\ depth' = IF rec THEN depth + 1 ELSE 1
-             [] R.op = "unlock" -> (IF rec /\ depth > 1 THEN owner = R.t ELSE owner # R.t \/ cont \/ TRUE) /\ depth' = IF depth > 0 THEN depth - 1 ELSE 0
+             [] R.op = "try_lock" /\ R.r = 0 /\ "skip" \notin DOMAIN R -> owner = R.t /\ depth' = [depth EXCEPT ![R.t] = IF rec THEN @ + 1 ELSE 1]
+             [] R.op = "unlock" -> (IF rec /\ depth[R.t] > 1 THEN owner = R.t ELSE TRUE) /\ depth' = [depth EXCEPT ![R.t] = IF @ > 0 THEN @ - 1 ELSE 0]
              [] OTHER -> UNCHANGED depth
         /\ UNCHANGED <<owner, q, sl, rsn, stale, cont, rec, lasthead>>
 CsEnter == Ev("CsEnter") /\ owner = R.t /\ UNCHANGED <<owner, depth, q, sl, rsn, stale, cont, rec, lasthead>>
